@@ -73,6 +73,15 @@ func (t *TraceWriter) Emit(ev interface{}) {
 
 func (t *TraceWriter) Flush() { t.w.Flush() }
 
+// NewMemTraceWriter collects the events in memory (for scenarios that run in parallel and are
+// written out in scenario order afterwards).
+func NewMemTraceWriter(buf *bytes.Buffer) *TraceWriter {
+	return &TraceWriter{w: bufio.NewWriterSize(buf, 1<<16)}
+}
+
+// Raw appends already encoded lines.
+func (t *TraceWriter) Raw(b []byte) { t.w.Write(b) }
+
 func (t *TraceWriter) Close() error {
 	t.w.Flush()
 	return t.fp.Close()
